@@ -14,7 +14,8 @@ META = dict(
          "taskers that stop, abort, or whose generator returns. For each, every recorder call of the fault-free run is a crash "
          "point (RuntimeError, KeyboardInterrupt) and every tick boundary an interrupt point. Checked: run returns or re-raises "
          "exactly the injected error; it lasts exactly until the first tick with no tasker started/running (or an empty queue); "
-         "each tasker still queued gets exactly one ABORT; each such framer's open frames are exited bottom-up.",
+         "each tasker still queued gets exactly one ABORT; each such framer's open frames, and those of the auxiliaries its "
+         "frames hold (done or not), are exited bottom-up before run() returns.",
     note="Single faults only (a second exception raised during the abort sweep itself is outside the statement and only "
          "reported as an observation); all framers have period 0; the tasker whose own generator raised is exempt, as are slaves "
          "and auxiliaries (never scheduled).",
@@ -160,6 +161,20 @@ def flo_programs(tier):
             A = ["framer A be active first a0"] + chain2("a", "atop", j + 3, {i: fiats, j: fiats}, hold={j: 2})
             S = deep_framer("S", "slave", depth)
             progs.append(("R3 depth %d: slave S by fiat in a%d and again in a%d" % (depth, i, j), [A, S]))
+    # R4: running framer B holds a plain auxiliary X (two nested frames) that reports `done me` after d ticks
+    #     and stays entered; the run ends before or after that point by stop / abort bids (and, as for every
+    #     program, at every crash and interrupt point)
+    for d in (1, 2):
+        for e in sorted(set((1, d + 2))):
+            for ending in (("bid stop all",), ("bid abort all", "bid stop me"), ("bid abort B", "bid stop all")):
+                if tier != "thorough" and d == 1 and e == 1 and ending[0] != "bid stop all":
+                    continue
+                A = ["framer A be active first a0"] + chain2("a", "atop", e + 1, {}, end=ending)
+                B = deep_framer("B", "active", 2, extra=["aux X"])
+                X = ["framer X be aux first x1", "   frame x0"] + rec3("x0", 6) + \
+                    ["      frame x1 in x0"] + rec3("x1", 9) + ["         go x2 if elapsed >= %r" % (d * TICK)] + \
+                    ["      frame x2 in x0"] + rec3("x2", 9) + ["         done me"]
+                progs.append(("R4 B holds aux X, X done after %d tick(s); A: %s at tick %d" % (d, " + ".join(ending), e), [A, B, X]))
     out = []
     for title, blocks in progs:
         text = "house h\n\n" + "\n\n".join("\n".join(b) for b in blocks) + "\n"
@@ -292,6 +307,9 @@ def run_case(prog, fault=None, interrupt_at=None, dispatch=None):
         for fm in real.all_framers(house):
             for fr in fm.frameNames.values():
                 res.parents[(fm.name, fr.name)] = fr.over.name if getattr(fr, "over", None) is not None else None
+                auxes = [a.name for a in getattr(fr, "auxes", ()) if hasattr(a, "name")]
+                if auxes:
+                    res.held[(fm.name, fr.name)] = auxes
         return res, order, set(order), npoints
     house, ref, count = build_hand(body, fault)
     res = ref["res"] = sked.Traced()
@@ -427,6 +445,20 @@ def judge(p, prog, res, order, framers, fault, interrupt_at, label):
     #     the frames nested in it is still entered.  Applies to everything a sweep ABORT exits: the swept
     #     framer's own frames and those of auxiliaries / slaves it takes down with it.
     parents = getattr(res, "parents", {}) or {}
+    held = getattr(res, "held", {}) or {}
+
+    def auxes_under(framer):
+        """auxiliary framers held (transitively) by frames of `framer`"""
+        out, todo = [], [framer]
+        while todo:
+            f = todo.pop()
+            for (fm, fr), auxes in sorted(held.items()):
+                if fm == f:
+                    for a in auxes:
+                        if a not in out:
+                            out.append(a)
+                            todo.append(a)
+        return out
 
     def nested_in(fr, inner, outer):
         x = parents.get((fr, inner))
@@ -447,6 +479,7 @@ def judge(p, prog, res, order, framers, fault, interrupt_at, label):
             elif ctx == "exit":
                 if id(e) in swept_ids:
                     inner = [g for g in st if g != frame and nested_in(fr, g, frame)]
+                    inner += ["%s.%s" % (a, g) for a in held.get((fr, frame), ()) for g in stacks.get(a, ())]
                     if inner:
                         p.violation("frames|exit-not-bottom-up", example,
                                     "abort of %s (sweep) exited frame %s of %s while %r, nested in it, %s still entered (entered order %r)"
@@ -456,12 +489,24 @@ def judge(p, prog, res, order, framers, fault, interrupt_at, label):
                     st.reverse()
                     st.remove(frame)        # the most recent entry of that frame
                     st.reverse()
+    judged = set()
     for n in queued:
-        if n in framers and stacks.get(n):
+        if n not in framers:
+            continue
+        judged.add(n)
+        if stacks.get(n):
             p.violation("frames|entered-frame-not-exited", example,
                         "framer %s was aborted by the sweep but its entered frames %r were never exited" % (n, stacks[n]), replay)
             return
-    open_others = sorted(k for k, v in stacks.items() if v and k not in framers)
+        # frames of the auxiliaries its frames hold are frames it entered too: exited before run() returns
+        for a in auxes_under(n):
+            judged.add(a)
+            if stacks.get(a):
+                p.violation("frames|entered-frame-of-held-aux-not-exited", example,
+                            "framer %s was still scheduled at the end and was aborted by the sweep, but frames %r of its auxiliary %s "
+                            "were still entered when run() returned" % (n, stacks[a], a), replay)
+                return
+    open_others = sorted(k for k, v in stacks.items() if v and k not in judged and k not in framers)
     running_swept = [n for n in queued if n in framers and any(ev[2] == "exit" for s in sweep if s["name"] == n for ev in s["events"] or ())]
     p.outcome("%s; %s" % (
         "fault-free" if fault is None and interrupt_at is None else
